@@ -131,6 +131,8 @@ pub open spec fn in_order(f: Func, v: Seq<Val>, k: int) -> bool {
     cmp_ans(f, v[k], v[k + 1]) matches Ok(c) && c.value->Int_0.val() <= 0
 }
 
+// @@INCLUDE stdx@@
+
 // @@EXTRACTED@@
 
 } // verus!
